@@ -19,6 +19,10 @@ func checkRT(tag string, in, rem, out []byte) int {
 
 func pin(b []byte, off int, vals ...byte) {
 	for i, v := range vals {
+		if concreteShapes {
+			b[off+i] = v
+			continue
+		}
 		nd.Assume(b[off+i] == v)
 	}
 }
